@@ -45,6 +45,11 @@ def injections(doc, ver):
         elif k == "reference" and d.get("generics") and isinstance(val, str):
             out.append({"path": list(p), "op": "set", "kind": "ref-to-unregistered-type", "value": "x-unregistered--" + UUID})
             out.append({"path": list(p), "op": "set", "kind": "ref-to-unregistered-type:no-x", "value": "some-new-type--" + UUID})
+            if ver == "2.0":
+                # a type that exists only in the other spec version is an unregistered (custom) type here
+                only21 = sorted(set(M.get("2.1").sdo_types) - set(M.get("2.0").sdo_types))
+                for t in (only21[0], only21[len(only21) // 2], only21[-1]):
+                    out.append({"path": list(p), "op": "set", "kind": "ref-to-unregistered-type:other-version-type", "value": "%s--%s" % (t, UUID)})
         elif k == "observable-container" and isinstance(val, dict):
             out.append({"path": list(p) + ["99"], "op": "add", "kind": "unregistered-observable-member", "value": {"type": "x-unregistered-sco", "x_a": 1}})
             for key, o in val.items():
